@@ -107,3 +107,30 @@ Definition k_cellpart (entries : list (Z * bool * Z * Z * Z)) : list Z :=
   flat_map (fun e =>
     let '(wv, sv, wo, w, st) := e in
     part_desc (opd_nets 0 wv None) sv (opd_nets 100 wo None) w st ++ [-5]) entries.
+
+(* ---- _ir.emit_assign on generated targets: selectors are signals, slices of signals or constants ---- *)
+Definition sel_nets (tabn : list (list Z)) (e : expr) : list net :=
+  match e with
+  | ESig i _ => nets_of (nth i tabn [])
+  | ESlice (ESig i _) lo hi => nslice (nets_of (nth i tabn [])) lo hi
+  | EConst v s => map (fun k => NC (Z.testbit v (Z.of_nat k))) (seq 0 (Z.to_nat (width s)))
+  | _ => []
+  end.
+
+Fixpoint enc_acond (c : acond) : list Z :=
+  match c with
+  | ATrue => [0]
+  | AMatch en sel pats bit =>
+      1 :: enc_acond en ++ [nlen sel] ++ enc_nets sel ++ [Z.of_nat (length pats)] ++
+      flat_map (fun pl => Z.of_nat (length pl) :: flat_map enc_pat pl) pats ++ [Z.of_nat bit]
+  end.
+
+(* per target: for every signal (in index order) the Assignments appended to its driver: condition chain, start,
+   width, nets, -4 ; -5 after each signal ; -8 after each target *)
+Definition k_emit_assign (tabn : list (list Z)) (targets : list (expr * list Z)) : list Z :=
+  flat_map (fun t =>
+    let l := emit_assign (sel_nets tabn) (fst t) 0 (nets_of (snd t)) ATrue in
+    flat_map (fun i =>
+      flat_map (fun a => if Nat.eqb (wa_sig a) i
+                         then enc_acond (wa_cond a) ++ [wa_start a; nlen (wa_val a)] ++ enc_nets (wa_val a) ++ [-4]
+                         else []) l ++ [-5]) (seq 0 (length tabn)) ++ [-8]) targets.
